@@ -30,6 +30,7 @@ import (
 	"sort"
 	"strconv"
 	"strings"
+	"syscall"
 	"testing"
 
 	"github.com/New-JAMneration/JAM-Protocol/internal/types"
@@ -1026,38 +1027,36 @@ func cgenChildSpans(ptr reflect.Value, s []byte, a, b int) []cgenSpan {
 // It only labels a violation that has already been established on the
 // top-level decoder; it never creates or suppresses one.
 func cgenLocalise(seed cgenSeed, m cgenMut, pred func(ct *cgenType, input []byte, seedPart []byte) bool) string {
+	name, _ := cgenLocaliseKey(seed, m, "", func(ct *cgenType, input []byte, seedPart []byte) (bool, string) {
+		return pred(ct, input, seedPart), ""
+	})
+	return name
+}
+
+// cgenLocaliseKey is cgenLocalise with a facet: pred also returns the facet (key)
+// observed at that level; the facet of the innermost reproducing level wins.
+func cgenLocaliseKey(seed cgenSeed, m cgenMut, topKey string, pred func(ct *cgenType, input []byte, seedPart []byte) (bool, string)) (string, string) {
+	key := topKey
+	w := cgenApply(seed.enc, m)
 	cur, a, b := seed.ct, 0, len(seed.enc)
 	ptr := seed.Val()
 	for depth := 0; depth < 12; depth++ {
 		found := false
 		for _, sp := range cgenChildSpans(ptr, seed.enc, a, b) {
-			var in []byte
 			part := seed.enc[sp.a:sp.b]
-			switch m.Kind {
-			case "prefix":
-				if !(sp.a <= m.Pos && m.Pos < sp.b) {
-					continue
-				}
-				in = part[:m.Pos-sp.a]
-			case "repl":
-				if !(sp.a <= m.Pos && m.Pos < sp.b) {
-					continue
-				}
-				in = cgenApply(part, cgenMut{Kind: "repl", Pos: m.Pos - sp.a, Val: m.Val})
-			case "ins":
-				if !(sp.a <= m.Pos && m.Pos < sp.b) {
-					continue
-				}
-				in = cgenApply(part, cgenMut{Kind: "ins", Pos: m.Pos - sp.a, Val: m.Val})
-			default:
+			if !(sp.a <= m.Pos && m.Pos < sp.b) {
 				continue
 			}
+			// the sub-decoder sees what it would see in context: the mutated string from the
+			// start of its own encoding to the end
+			in := w[sp.a:]
 			if cgenHugeLength(m) && cgenHot(sp.sub.ct, part, m.Pos-sp.a) {
 				// would make the sub-decoder allocate without bound: do not run it in-process
 				continue
 			}
-			if pred(sp.sub.ct, in, part) {
+			if ok, k := pred(sp.sub.ct, in, part); ok {
 				cur, a, b, ptr = sp.sub.ct, sp.a, sp.b, sp.sub.ptr
+				key = k
 				found = true
 				break
 			}
@@ -1066,7 +1065,7 @@ func cgenLocalise(seed cgenSeed, m cgenMut, pred func(ct *cgenType, input []byte
 			break
 		}
 	}
-	return cur.Name
+	return cur.Name, key
 }
 
 // ---------------------------------------------------------------------------
@@ -1208,10 +1207,11 @@ type cgenChildSink struct {
 	evals, trans      uint64
 	skipped           uint64
 	hint              string
+	hintDirty         bool
 	classes           map[string]bool
 	sigs              map[string]*cgenPending
 	sinceFlush        int
-	rec               [cgenRecSize]byte
+	mm                []byte
 }
 
 type cgenPending struct {
@@ -1239,21 +1239,34 @@ func cgenNewChildSink() (*cgenChildSink, error) {
 	if err != nil {
 		return nil, err
 	}
+	if err := f.Truncate(4096); err != nil {
+		return nil, err
+	}
+	// shared file mapping: a store per case instead of a syscall per case; the page
+	// cache keeps the last record when the process is killed
+	mm, err := syscall.Mmap(int(f.Fd()), 0, 4096, syscall.PROT_READ|syscall.PROT_WRITE, syscall.MAP_SHARED)
+	if err != nil {
+		return nil, err
+	}
+	s.mm = mm
 	s.cur = f
 	s.out = bufio.NewWriterSize(os.Stdout, 1<<16)
 	return s, nil
 }
 
 func (s *cgenChildSink) writeRec(unit, ord uint64, done byte) {
-	binary.LittleEndian.PutUint64(s.rec[0:], unit)
-	binary.LittleEndian.PutUint64(s.rec[8:], ord)
-	binary.LittleEndian.PutUint64(s.rec[16:], s.evals)
-	binary.LittleEndian.PutUint64(s.rec[24:], s.trans)
-	s.rec[32] = done
-	binary.LittleEndian.PutUint64(s.rec[152:], s.skipped)
-	n := copy(s.rec[34:], s.hint)
-	s.rec[33] = byte(n)
-	s.cur.WriteAt(s.rec[:], 0)
+	rec := s.mm
+	binary.LittleEndian.PutUint64(rec[0:], unit)
+	binary.LittleEndian.PutUint64(rec[8:], ord)
+	binary.LittleEndian.PutUint64(rec[16:], s.evals)
+	binary.LittleEndian.PutUint64(rec[24:], s.trans)
+	rec[32] = done
+	binary.LittleEndian.PutUint64(rec[152:], s.skipped)
+	if s.hintDirty {
+		n := copy(rec[34:144], s.hint)
+		rec[33] = byte(n)
+		s.hintDirty = false
+	}
 }
 
 func (s *cgenChildSink) Begin(unit, ord uint64) bool {
@@ -1274,7 +1287,9 @@ func (s *cgenChildSink) Hint(h string) {
 	if len(h) > 110 {
 		h = h[:110]
 	}
-	s.hint = h
+	if h != s.hint {
+		s.hint, s.hintDirty = h, true
+	}
 }
 
 func (s *cgenChildSink) emit(ev cgenEvent) {
